@@ -231,3 +231,9 @@ Proof. vm_compute. repeat split. Qed.
    appends, copies or calls a mutating table/world method through the shared token ---- *)
 Theorem no_shared_write_sites : shared_write_sites = [].
 Proof. reflexivity. Qed.
+
+(* ---- C19: no function of the library (root package, datalog, parser; init functions apart)
+   assigns to, increments, deletes from or copies into a package-level variable: goroutines
+   that share only a token do not share hidden package state (caches, counters) either ---- *)
+Theorem no_package_state_writes : pkg_state_write_sites = [].
+Proof. reflexivity. Qed.
